@@ -599,6 +599,10 @@ func (db *DB) search(o Object, field, operator string, value interface{}, constr
 		return &Search{db: db, err: err}
 	}
 
+	// a field promoted from an embedded structure has one name for
+	// descriptors, constraints and indexes
+	field = declaredPath(o, field)
+
 	// transform search value before searching
 	s.prepare(field, &value)
 
